@@ -5,6 +5,7 @@ from .. import datadoc as dd
 
 ID = "C07"
 MODULE = "LasioProofs.Props.C07"
+EXTRA_MODULES = ["LasioProofs.Props.C02File"]
 RULE = ("(0) the input of the fixed finding (21 leading comment lines, columns != declared) first; (a) exhaustive (declared d in 0..6) x "
         "(columns c in 1..8) x (rows r in 1..5) x engine in {numpy, normal} x layout in {one depth step per line (WRAP=NO), wrapped "
         "(WRAP=YES, c = d >= 1, every depth step re-partitioned over several physical lines)}; cell (i,j) carries the value 1000*i + j, "
@@ -336,5 +337,5 @@ LEVEL_TEXT = ("Machine-checked Lean 4 theorems about the executable model of the
               "into curve j unchanged, keeps the d declared curves first in order, appends c-d unnamed curves and fills d-c curves with NaN^r "
               "(C07_assign_*; C07_binding_assigned end to end). Tie: exhaustive (d,c,r) grid x engines x wrapped/unwrapped on the real code "
               "with the oracle and model comparison.")
-LEVEL_NOTE = ("Metadata of declared curves is untouched because the model's Slot.declared j refers to the existing curve object; names of the "
+LEVEL_NOTE = ("WHOLE FILE (Props/C02File.lean, theorems C07_file_*): after ANY successful readFull every data window has curves of one length, max(d, c) of them, declared slots first in order, surplus columns after them, missing ones NaN of the common length (C07_file_rect, C07_file_curves); binding of column j to curve j for uniform token matrices (C07_file_binding, C07_file_column, C07_file_binding_plain). Metadata of declared curves is untouched because the model's Slot.declared j refers to the existing curve object; names of the "
               "surplus curves (UNKNOWN:n suffixes) belong to C13. Float parsing is a parameter of the model.")
